@@ -298,7 +298,8 @@ class TagImage(object):
     works on (what was read, with pending modifications), `mem` what the tag holds.  synchronize() writes the
     units (pages of `unit` octets) that differ, in ascending order; the field may be lost after any of them, so
     every state img[0:unit*j] + mem[unit*j:] must satisfy the C03 frame and, for C02, the cut-point condition."""
-    def __init__(self, img, off, end, a, b, unit, goal, check_cut=False):
+    def __init__(self, img, off, end, a, b, unit, goal, check_cut=False, inside=False):
+        self.inside = inside
         self.img = img
         self.mem = img
         self.mem0 = img
@@ -330,6 +331,8 @@ class TagImage(object):
         # (from the TLV's length field to the end of the data area, reserved range excluded) differ from before
         require(mid[0:self.off + 1] == self.mem0[0:self.off + 1], 'C03: nothing before the NDEF length field changes')
         require(mid[self.end:] == self.mem0[self.end:], 'C03: nothing behind the data area changes')
+        if self.inside:
+            require(mid[self.a:self.b] == self.mem0[self.a:self.b], 'C03: the reserved octets inside the area keep their value')
         if self.check_cut:
             require(cut_ok(t12_view(mid, self.off, self.end, self.a, self.b),
                            t12_view(self.mem0, self.off, self.end, self.a, self.b), self.goal),
